@@ -166,3 +166,17 @@ def req(cond: bool, message: str, signature: str | None = None):
     """Assert-like helper for oracles."""
     if not cond:
         raise Violation(message, signature)
+
+
+STRICT_REJECTIONS = os.environ.get("TQV_STRICT_REJECTIONS") == "1"
+
+
+def unlisted_rejection(message: str, signature: str):
+    """An input outside a function's documented domain was accepted instead of being rejected, in a place where the
+    *listed* property says nothing about rejection (it quantifies over admissible inputs only).  The library's docs
+    promise the ValueError, so this is worth counting, but it is not a violation of the listed property: the case is
+    recorded as inconclusive("accepted-invalid-input:...") unless TQV_STRICT_REJECTIONS=1 asks for the documented contract.
+    """
+    if STRICT_REJECTIONS:
+        raise Violation(message, signature)
+    raise Inconclusive("accepted-invalid-input:" + signature)
